@@ -339,7 +339,7 @@ fn run_cli(c: &CliCase) -> Outcome {
 	let out = match cmd.stdin(std::process::Stdio::null()).output() {
 		Ok(o) => o,
 		Err(e) => {
-			o.fail("harness:wx-spawn", e.to_string());
+			o.fail("env:wx-spawn", e.to_string());
 			return o;
 		}
 	};
